@@ -27,20 +27,40 @@
                    program points of wait.c / cv.c the release is PROVED (`C11_fair_holder_releases`).
   * `ClockAdvances x`  the clock passes every finite `min_ntime` a sleeper is waiting for.
   * `FiniteStrayPosts x`  from some time on a semaphore bound to an in-flight call is only posted by a waker that owes
-                   the post.  `FiniteWakeups x t`: from some time on the P of `t` does not return 0.
+                   the post for a live record of that call.  `FiniteWakeups x t`: from some time on the P of `t` does
+                   not return 0.
                    (The acceptor accepts `sem v` on any semaphore from any thread — traffic of other layers —, and a
                    sleeper whose deadline has passed and that is woken again and again by stray posts rescans and
                    sleeps again for ever: `C11_fair_needs_finite_wakeups`.)
 
   MACHINE-CHECKED HERE (no sorry, no axiom; `#print axioms`: propext, Classical.choice, Quot.sound)
-  * `C11_fair_termination_timed`  case (a) of the full statement: every nsync_wait_n call whose abs_deadline is finite
-        returns, in every execution from a reachable state with `WeakFair`, `LockFair`, `ForeignRelease`,
-        `ClockAdvances` and `FiniteWakeups x t`.  Covers every path of wait.c: poll loop, malloc, enqueue loop with the
-        object mutexes / cv spinlocks, the sleep loop (the P times out once the clock has passed `min_ntime ≤
-        abs_deadline`), the dequeue loop including cv_dequeue's wait loop on `waiting` (`wspin_owned`: a signaller owns
-        the record; it is never blocked, so it makes its store), free, relock, return.
-  * `C11_fair_timed_result`  … and it returns by a `ret nsync_wait_n r` event with `r < count → readyFor` (object `r`
-        is ready: `C11_index_ready`) and `r = count →` a real timeout (`C11_timeout`).
+  * `C11_fair_termination_partial`  both cases of the full statement, with `FiniteWakeups x t` in place of
+        `FiniteStrayPosts x`: in every execution from a reachable state with `WeakFair`, `LockFair`, `ForeignRelease`,
+        `ClockAdvances` and `FiniteWakeups x t`, an nsync_wait_n call of thread `t` returns PROVIDED
+        (a) its abs_deadline is finite, or
+        (b) at some time while it is at the P of wait.c:78 one of its objects is ready for it in the sense of
+            `becameReady` (note notified / expired, counter at zero, cv record unlinked by a signaller) — `ReadyAtP`.
+        Covers every path of wait.c: poll loop, malloc, enqueue loop with the object mutexes / cv spinlocks, the sleep
+        loop, the dequeue loop including cv_dequeue's wait loop on `waiting` (`wspin_owned`: a signaller owns the
+        record; it is never blocked, so it makes its store), free, relock, return.
+        (a): the P times out once the clock has passed `min_ntime ≤ abs_deadline`.
+        (b): `becameReady` is stable while the caller is in its sleep loop (`ready_step`); by `C11_no_oversleep` a token
+        is available (it stays until the caller's own `pd_ret`: `token_stays`), or a waker owes the post (it is Ready,
+        posts, and the post binds to the caller's semaphore: `inflight_posts`), or a signaller has unlinked the record
+        (it clears `waiting`: `pend_clears`, then `C11_cleared_accounted`), or the record is queued on the ready object
+        whose mutex is held — not for ever, the mutex is free again and again —, or `min_ntime` has passed.
+        Why "at the P": for a condition variable `becameReady` (= the record is not on pcv->waiters) holds trivially
+        between the record's initialisation and its enqueue, so, as in `C11_no_oversleep`, readiness is taken while the
+        caller is about to enter / inside the P.  Readiness BEFORE the sleep needs no proviso:
+  * `C11_fair_returns_or_sleeps`  (no deadline / readiness proviso, no clock) a call returns, or from some time on it
+        sleeps in the P for ever — so a call that finds an object ready in its first poll or during the enqueue loop
+        returns.
+  * `C11_fair_termination_timed`  = case (a) alone.
+  * `C11_fair_index_partial`  (corollary `C11_fair_index_full` with `FiniteWakeups`): in case (b) without abs_deadline the
+        call returns by `ret nsync_wait_n r` with `r < count` and object `r` ready (`C11_index_ready`), not `count`
+        (`C11_timeout`).
+  * `C11_fair_timed_result`  in case (a) it returns by `ret nsync_wait_n r` with `r < count → readyFor` and
+        `r = count →` a real timeout.
   * `C11_fair_signal_returns`  every nsync_cv_signal / nsync_cv_broadcast call returns (no clock, no wake-up bound).
   * `C11_fair_lock_free_again`, `C11_fair_holder_releases`.
   * NECESSITY, each by an explicit execution satisfying all other hypotheses in which a call with deadline 500 never
@@ -53,43 +73,51 @@
     (`Example.noteCtr` …) satisfy all hypotheses; the caller really sleeps (Blocked) before it times out / is woken;
     the theorems apply (examples at the end).  `cvWokenExec` for the signaller.
 
-  NOT PROVED — `_full` statements kept as definitions, nothing weakened silently
-  1. `C11_fair_termination_full` case (b) (no deadline, an object becomes ready while the caller is at the P) and its
-     corollary `C11_fair_index_full`.  What is missing: the token flow after `C11_no_oversleep` as leads-to facts —
-     a token on the call's semaphore stays until the caller's own `pd_ret`; a waker with `post u = some r` (Ready)
-     posts and the post binds to the call's semaphore; a signaller's pending record becomes such a post
-     (`pend_persist` is proved); a record still queued on a ready note / counter whose mutex is held is popped before
-     the (proved / assumed) release — plus stability of `becameReady` between two scans.
-  2. `C11_fair_termination_full` is stated with `FiniteStrayPosts`; proved is the timed case with `FiniteWakeups x t`.
-     Missing: `FiniteStrayPosts → FiniteWakeups` (each record of a call is popped at most once, so at most `count`
-     owed posts reach its semaphore; the invariants of Proofs/WaitNSem*.lean say where tokens are, not how many).
+  NOT PROVED — the `_full` statements are kept as definitions, nothing is weakened silently
+  The ONLY difference between `C11_fair_termination_full` / `C11_fair_index_full` and the `_partial` theorems is the
+  hypothesis `FiniteStrayPosts x` (about who posts) in place of `FiniteWakeups x t` (about the caller's own P).  Missing
+  is `FiniteStrayPosts x → FiniteWakeups x t` for a call that never returns: once the stray posts have stopped, every
+  token that reaches the call's semaphore is the post of a waker that owed it for one of the call's records; a record is
+  popped only while its `waiting` is set, and `waiting` is never set again after the enqueue loop; so there are only
+  finitely many such posts — those already owed when the call started to sleep (including the late V's of wakers of
+  earlier calls that used the same stack records, `Example.lateV`; finitely many because only finitely many threads
+  have acted) plus at most one per record —, and each wake-up consumes one token.  This needs a counting argument over
+  threads (finite support of `post`) with the potential `sem j + #{records still waiting} + #{owed posts}`; the
+  invariants of Proofs/WaitNSem*.lean say where tokens are, not how many.  NOT done.
+  Remark on the statement: `FiniteStrayPosts` asks for a waker that owes the post for a LIVE record of the call that owns
+  the semaphore; "some thread with `post ≠ none`" would not do in this model, because the acceptor accepts the late V
+  of a waker whose record has died on any semaphore, also one that has been handed to another call since.
 -/
-import NsyncVerif.Proofs.WaitNFairRet
+import NsyncVerif.Proofs.WaitNFairMain3
 import NsyncVerif.Proofs.WaitNFairTrace3
 
 namespace WaitN
 
 /-! ### statements at full strength -/
 
-/-- FULL statement (case (a) is proved with `FiniteWakeups` in place of `FiniteStrayPosts`: `C11_fair_termination_timed`;
-    case (b) is not proved). -/
+/-- FULL statement (proved with `FiniteWakeups x t` in place of `FiniteStrayPosts x`: `C11_fair_termination_partial`).
+    `ReadyAtP x t i`: at some time `i' ≥ i`, the call of time `i` still running and at its P, object `k` is ready for its
+    record `r = nw[k]` (`becameReady`). -/
 def C11_fair_termination_full : Prop :=
   ∀ (s0 : State) (x : Exec s0), Reachable s0 → WeakFair x → LockFair x → ForeignRelease x → ClockAdvances x →
     FiniteStrayPosts x →
     ∀ t i, inCall ((x.ρ i).pc t) = true →
-      ((∃ d : Int, ((x.ρ i).fr t).dl = some d)
-       ∨ (∃ i' k r, i ≤ i' ∧ (∀ j, i ≤ j → j ≤ i' → (x.ρ j).pc t ≠ .idle) ∧ atP (x.ρ i') t
-            ∧ ((x.ρ i').fr t).recs[k]? = some r ∧ becameReady (x.ρ i') t k r)) →
+      ((∃ d : Int, ((x.ρ i).fr t).dl = some d) ∨ ReadyAtP x t i) →
       ∃ j, i ≤ j ∧ (x.ρ j).pc t = .idle
 
-/-- FULL statement of the corollary (not proved): without deadline the call returns an index, not `count`. -/
+/-- FULL statement of the corollary (proved with `FiniteWakeups x t`: `C11_fair_index_partial`): without deadline the
+    call returns an index, not `count`. -/
 def C11_fair_index_full : Prop :=
   ∀ (s0 : State) (x : Exec s0), Reachable s0 → WeakFair x → LockFair x → ForeignRelease x → ClockAdvances x →
     FiniteStrayPosts x →
-    ∀ t i, inCall ((x.ρ i).pc t) = true → ((x.ρ i).fr t).dl = none →
-      (∃ i' k r, i ≤ i' ∧ (∀ j, i ≤ j → j ≤ i' → (x.ρ j).pc t ≠ .idle) ∧ atP (x.ρ i') t
-            ∧ ((x.ρ i').fr t).recs[k]? = some r ∧ becameReady (x.ρ i') t k r) →
-      ∃ j r nested, i ≤ j ∧ x.σ j = some (.thr t (.retWaitN r nested)) ∧ r < ((x.ρ j).fr t).count ∧ readyFor (x.ρ j) t r
+    ∀ t i, inCall ((x.ρ i).pc t) = true → ((x.ρ i).fr t).dl = none → ReadyAtP x t i →
+      ∃ j r nested, i ≤ j ∧ x.σ j = some (.thr t (.retWaitN r nested)) ∧ (x.ρ (j + 1)).pc t = .idle
+        ∧ r < ((x.ρ j).fr t).count ∧ readyFor (x.ρ j) t r
+
+/-- `ReadyAtP` spelled out. -/
+example {s0 : State} (x : Exec s0) (t : Tid) (i : Nat) : ReadyAtP x t i ↔
+    ∃ i' k r, i ≤ i' ∧ (∀ j, i ≤ j → j ≤ i' → (x.ρ j).pc t ≠ .idle) ∧ atP (x.ρ i') t
+      ∧ ((x.ρ i').fr t).recs[k]? = some r ∧ becameReady (x.ρ i') t k r := Iff.rfl
 
 /-! ### proved -/
 
@@ -104,6 +132,33 @@ theorem C11_fair_holder_releases {s0 : State} (x : Exec s0) (hr : Reachable s0) 
     (hf : ForeignRelease x) (o : ObjId) (u : Tid) (j : Nat) (h : ((x.ρ j).obj o).lock = some u) :
     ∃ j', j ≤ j' ∧ ((x.ρ j').obj o).lock ≠ some u :=
   holder_releases x hr hw hf o u j h
+
+/-- FAIR TERMINATION (`C11_fair_termination_full` with `FiniteWakeups x t` in place of `FiniteStrayPosts x`): every
+    nsync_wait_n call returns provided its abs_deadline is finite or one of its objects becomes ready for it. -/
+theorem C11_fair_termination_partial {s0 : State} (x : Exec s0) (hr : Reachable s0) (hw : WeakFair x) (hl : LockFair x)
+    (hf : ForeignRelease x) (hc : ClockAdvances x) (t : Tid) (hfw : FiniteWakeups x t) (i : Nat)
+    (hin : inCall ((x.ρ i).pc t) = true)
+    (hprov : (∃ d : Int, ((x.ρ i).fr t).dl = some d) ∨ ReadyAtP x t i) :
+    ∃ j, i ≤ j ∧ (x.ρ j).pc t = .idle :=
+  wait_returns x ⟨hr, hw, hl, hf⟩ hc t hfw i hin hprov
+
+/-- "It does not keep sleeping after one of the objects becomes ready", with the result: without abs_deadline the call
+    returns the index of a ready object (`C11_fair_index_full` with `FiniteWakeups x t`). -/
+theorem C11_fair_index_partial {s0 : State} (x : Exec s0) (hr : Reachable s0) (hw : WeakFair x) (hl : LockFair x)
+    (hf : ForeignRelease x) (hc : ClockAdvances x) (t : Tid) (hfw : FiniteWakeups x t) (i : Nat)
+    (hin : inCall ((x.ρ i).pc t) = true) (hdl : ((x.ρ i).fr t).dl = none) (hrdy : ReadyAtP x t i) :
+    ∃ j r nested, i ≤ j ∧ x.σ j = some (.thr t (.retWaitN r nested)) ∧ (x.ρ (j + 1)).pc t = .idle
+      ∧ r < ((x.ρ j).fr t).count ∧ readyFor (x.ρ j) t r :=
+  wait_index_ready x ⟨hr, hw, hl, hf⟩ hc t hfw i hin hdl hrdy
+
+/-- Without any proviso: the only way for an nsync_wait_n call not to return is to sleep in the P of wait.c:78 for
+    ever (from time `j` on it does not execute any operation of its own code, and it is `Blocked` again and again).  In
+    particular a call that finds an object ready in its first poll, or during the enqueue loop, returns. -/
+theorem C11_fair_returns_or_sleeps {s0 : State} (x : Exec s0) (hr : Reachable s0) (hw : WeakFair x) (hl : LockFair x)
+    (hf : ForeignRelease x) (t : Tid) (hfw : FiniteWakeups x t) (i : Nat) (hin : inCall ((x.ρ i).pc t) = true) :
+    (∃ j, i ≤ j ∧ (x.ρ j).pc t = .idle)
+    ∨ (∃ j k, i ≤ j ∧ Still x t j ∧ (x.ρ j).pc t = .wPdWait k ∧ ∀ j1, j ≤ j1 → ∃ j', j1 ≤ j' ∧ Blocked (x.ρ j') t) :=
+  wait_returns_or_sleeps x ⟨hr, hw, hl, hf⟩ t hfw i hin
 
 /-- FAIR TERMINATION, timed case: every nsync_wait_n call with a finite abs_deadline returns. -/
 theorem C11_fair_termination_timed {s0 : State} (x : Exec s0) (hr : Reachable s0) (hw : WeakFair x) (hl : LockFair x)
@@ -221,6 +276,17 @@ example : (Reachable init ∧ WeakFair wokenExec ∧ LockFair wokenExec ∧ Fore
     ∧ wokenExec.σ 91 = some (.thr 0 (.retWaitN 1 false)) :=
   ⟨woken_hyps, woken_sleeps.2.2.2.1, woken_call.2.1, woken_call.2.2.1, woken_call.2.2.2,
    woken_sleeps.2.2.2.2.2.2.2.2.2.2.2.2.1⟩
+
+/-- case (b) applies to the sleeping caller at time 49 (the counter has just reached zero, the caller is still
+    asleep, no token yet) and gives its return … -/
+example : ∃ j, 49 ≤ j ∧ (wokenExec.ρ j).pc 0 = .idle :=
+  C11_fair_termination_partial wokenExec woken_hyps.1 woken_hyps.2.1 woken_hyps.2.2.1 woken_hyps.2.2.2.1
+    woken_hyps.2.2.2.2.1 0 (woken_hyps.2.2.2.2.2.1 0) 49 (by rw [woken_sleeps.2.2.2.2.2.2.1]; rfl)
+    (.inr ⟨49, 1, .stk 1, Nat.le_refl _,
+      fun j h1 h2 => by
+        have : j = 49 := Nat.le_antisymm h2 h1
+        subst this; rw [woken_sleeps.2.2.2.2.2.2.1]; simp,
+      .inr ⟨3, woken_sleeps.2.2.2.2.2.2.1⟩, woken_call.2.2.1, woken_call.2.2.2⟩)
 
 /-- `Example.cvWoken`: thread 1 has called nsync_cv_signal at time 10; the theorem gives its return. -/
 example : ∃ j, 10 ≤ j ∧ (cvWokenExec.ρ j).pc 1 = .idle :=
